@@ -100,11 +100,27 @@ def geometry_error(img):
 
 
 
+SIZE_ASSIGNED = {}   # id(image) -> align(n, alignment) for images whose size was ASSIGNED (`image.size = n`) in the tree_ops stream
+
+
+def ref_geometry_error(img):
+    """geometry_error restated over ref_len (nothing of the real len() involved)"""
+    L = ref_len(img)
+    kids = img.sub_images
+    if len(img.binary or b"") > L:
+        return True
+    for c in kids:
+        if ref_geometry_error(c) or c.offset + ref_len(c) > L:
+            return True
+    return any(i != j and c.offset < x.offset + ref_len(x) and x.offset < c.offset + ref_len(c) for i, c in enumerate(kids) for j, x in enumerate(kids))
+
+
 def ref_len(img):
     """len() of an image restated from its description alone (the fields the constructor stored: `_size` = explicit size rounded up to the alignment, offset,
     alignment, binary, sub-images): explicit size wins, else the furthest end of own binary and ALL sub-images, rounded up to the alignment"""
-    if img._size:
-        return img._size
+    sz = SIZE_ASSIGNED.get(id(img), img._size)   # a size assigned after construction counts rounded up to the alignment, whatever the setter stored
+    if sz:
+        return sz
     ext = max([len(img.binary or b"")] + [c.offset + ref_len(c) for c in img.sub_images])
     al = img.alignment
     return (ext + al - 1) // al * al
@@ -913,6 +929,42 @@ def tree_ops(ck, drv):
         else:
             so.expect(not valid and ex0[0] == r[0], inp, "join_images raised although export() works (or on a valid tree)", r, ex0)
             reqs.append((inp, f"join {toks}", r[0]))
+        # ---- size assigned after construction (`node.size = n`, n arbitrary, node anywhere in the tree), on a fresh copy
+        im4 = build(t)
+        im4.offset = base
+        nodes4 = []
+
+        def walk4(n, pth):
+            nodes4.append((n, pth))
+            for i, c in enumerate(n.sub_images):
+                walk4(c, pth + [i])
+        walk4(im4, [])
+        toks4 = " ".join(tokens(im4))
+        node, pth = rng.choice(nodes4)
+        al = node.alignment
+        cur = pyres(len, node)
+        nn = rng.choice([1, 3, 5, 7, al + 1, 2 * al - 1, rng.randrange(1, 300)] + ([cur[1] + rng.choice([0, 1, 3])] if cur[0] == "ok" else []))
+        inp = ("setsize", pth, nn, toks4)
+        so.note(inp, cls="setsize:" + ("multiple" if nn % al == 0 else "non-multiple") + (":child" if pth else ":root"))
+        asg = pyres(setattr, node, "size", nn)
+        want = (nn + al - 1) // al * al
+        SIZE_ASSIGNED.clear()
+        SIZE_ASSIGNED[id(node)] = want
+        if asg[0] != "ok":
+            so.expect(False, inp, "assigning a size raised", asg)
+        else:
+            ln, va4, ex4 = pyres(len, im4), pyres(im4.validate), pyres(im4.export)
+            so.expect(pyres(len, node) == ("ok", want), inp, "after `image.size = n` the reported size is not n rounded up to the alignment (as the constructor does)", pyres(len, node), want)
+            so.expect(len_mismatch(im4) is None, inp, "after a size assignment len() of a node differs from the length restated from the description", len_mismatch(im4))
+            so.expect((va4[0] != "ok") == ref_geometry_error(im4) and va4[0] in ("ok", "E:spsdk"), inp,
+                      "after a size assignment validate() does not report an error exactly when the geometry (with the rounded size) is wrong", va4[0], ref_geometry_error(im4))
+            if fits(im4):
+                so.expect(ex4[0] == "ok" and len(ex4[1]) == ref_len(im4), inp, "after a size assignment export() fails or its length differs from the reported length (nothing sticks out)",
+                          ex4[0] if ex4[0] != "ok" else len(ex4[1]), ref_len(im4))
+            reqs.append((inp, f"setsize {','.join(map(str, pth)) if pth else '-'} {nn} {toks4}",
+                         canon(pyres(lambda: f"{ln[1]} {len(node)} " + ("ok" if va4[0] == "ok" else "E:overlap" if va4[0] == "E:spsdk" else va4[0]) + " "
+                                     + ((hexs(ex4[1])) if ex4[0] == "ok" else ex4[0])))))
+        SIZE_ASSIGNED.clear()
         # ---- find_sub_image with duplicate names (oracle only; the model is `findSub` over the list of names)
         if img.sub_images:
             names = [rng.choice(["a", "b", "c"]) for _ in img.sub_images]
